@@ -372,7 +372,9 @@ ITEMS = location_types() + budget_types() + error_types() + [
          requires=[('pump_invariant', 'old(self).live_inv()'), ('history_below_2_64', 'old(self).live_room()')],
          proofs=[
              # replay loop
-             dict(before='let Some(frame) = self.inject.last_mut() else {', ghost=True, text='let ghost f1 = self.rec_stack@;'),
+             dict(before='let Some(frame) = self.inject.last_mut() else {', ghost=True, text='let ghost f1 = self.rec_stack@; let ghost tre1 = self.total_replayed_events;'),
+             dict(before='self.observe_budget_for_replay(&ev)?;', label='C08:every_replayed_event_is_counted_exactly_once_and_delivered_only_within_the_total_replay_limit', props=['C08'],
+                  text='assert(self.total_replayed_events == tre1 + 1 && self.total_replayed_events <= self.alias_limits.max_total_replayed_events);'),
              dict(before='let Some(frame) = self.inject.last_mut() else {', text='lemma_frames_facts(f1);'),
              dict(before='let Some(frame) = self.inject.last_mut() else {', text='if self.budget is Some { lemma_budget_room(self.budget.unwrap()); }'),
              dict(before='self.last_location = ev.location();', nth=1, text='''
@@ -380,7 +382,13 @@ ITEMS = location_types() + budget_types() + error_types() + [
                      (#[trigger] self.rec_stack@[a]).depth >= (#[trigger] self.rec_stack@[b]).depth by { assert(f1[a].depth >= f1[b].depth); }
                  lemma_frames_all_pushed(f1, self.rec_stack@, ev);'''),
              # parser loop
-             dict(after='let location = location_from_span(&span);', ghost=True, text='let ghost f0 = self.rec_stack@;'),
+             dict(after='let location = location_from_span(&span);', ghost=True, text='let ghost f0 = self.rec_stack@; let ghost pae0 = self.per_anchor_expansions@; let ghost inj0 = self.inject@.len();'),
+             dict(before='self.inject.push(InjectFrame {', label='C08:an_alias_is_expanded_only_within_the_per_anchor_and_replay_nesting_limits_and_is_counted_once', props=['C08'],
+                  text='''assert(anchor_id < self.per_anchor_expansions@.len()
+                        && self.per_anchor_expansions@[anchor_id as int] == (if anchor_id < pae0.len() { if pae0[anchor_id as int] == usize::MAX { usize::MAX } else { (pae0[anchor_id as int] + 1) as usize } } else { 1usize })
+                        && self.per_anchor_expansions@[anchor_id as int] <= self.alias_limits.max_alias_expansions_per_anchor
+                        && self.inject@.len() == inj0 && inj0 + 1 <= self.alias_limits.max_replay_stack_depth
+                        && (forall|j: int| 0 <= j < pae0.len() && j != anchor_id ==> self.per_anchor_expansions@[j] == pae0[j]));'''),
              dict(after='let location = location_from_span(&span);', text='lemma_frames_facts(f0);'),
              dict(after='let location = location_from_span(&span);', text='if self.budget is Some { lemma_budget_room(self.budget.unwrap()); }'),
              dict(after='}, _ => {} } }, _ => {} } }', label='budget_after_observe', text='''
